@@ -5,6 +5,7 @@ import RemocModel.Base.CloseProv
 import RemocModel.Base.CloseList
 import RemocModel.Base.CloseQuiet
 import RemocModel.Base.CloseAll
+import RemocModel.Base.CloseOnce
 set_option linter.unusedSimpArgs false
 
 /-!
@@ -483,5 +484,92 @@ example : eosRun.eos = some true ∧ eosRun.impl = some .close ∧ eosRun.handle
     eosRun.hres.map (fun p => (p.1.id, p.2)) = [(1, .ok), (2, .ok), (3, .dropped)] ∧
     (locOf eosRun.delivered).map (·.id) = [10] ∧ eosRun.lhres.map (·.2) = [.ok] ∧
     eosRun.lreason = some .closed := by decide
+
+/-! ## `rch::oneshot` -/
+
+/-- **oneshot: at most one value, same classification, the value is transmitted or reported.**
+For every schedule of a oneshot channel: at most one value is ever accepted; the reason the (unsent)
+sender observes is classified as for mpsc; once `send_impl` has ended the handle of the accepted value
+is resolved — `Ok` iff it was transmitted, else the send error or `Dropped`; and a clean end at the
+receiver (`RecvError::Closed` when nothing was delivered) means that everything transmitted was
+delivered, i.e. the receiver reports "closed without a value" only if no value was transmitted. -/
+theorem oneshot_closed_classified (c : Cfg) (s : State) (h : ReachableOnce c s) :
+    s.accepted.length ≤ 1 ∧
+    (s.reason = some .closed → s.closeCalled = true) ∧
+    (s.reason = some .dropped → s.rAlive = false) ∧
+    (s.reason = some .failed → s.connDown = true ∨ s.fwdErr = true ∨
+      ∃ p ∈ s.hres, p.2 = HRes.sendErr ∧ (p.1.bad ≠ .no ∨ s.connDown = true ∨ s.rimpl.isSome)) ∧
+    (∀ v, s.accepted = [v] → s.impl.isSome →
+      (s.hres = [(v, .ok)] ∧ s.xmit = [v]) ∨ (s.hres = [(v, .sendErr)] ∧ s.xmit = []) ∨
+      (s.hres = [(v, .dropped)] ∧ s.xmit = [])) ∧
+    (s.eos = some true → remOf s.delivered = s.xmit) := by
+  have hr := h.reachable
+  have o := oinv_reachable c s h
+  have cl := mpsc_close_classified c s hr
+  have q := qinv_reachable c s hr
+  refine ⟨by have := o.one; omega, cl.1, cl.2.1, cl.2.2.1, ?_, (mpsc_close_keeps_transmitted c s hr).2⟩
+  intro v hv hi
+  obtain ⟨hc, hq⟩ := q.ended hi
+  have hacc := q.acc
+  rw [hv, hc, hq] at hacc
+  simp only [Option.toList, List.append_nil] at hacc
+  have hx := q.xm
+  cases hh : s.hres with
+  | nil => simp [hh] at hacc
+  | cons p ps =>
+    rw [hh] at hacc hx
+    simp only [List.map_cons, List.cons.injEq] at hacc
+    have hps : ps = [] := by simpa using hacc.2.symm
+    subst hps
+    obtain ⟨pv, pr⟩ := p
+    have : pv = v := hacc.1.symm
+    subst this
+    cases pr
+    · left; exact ⟨rfl, by rw [hx]; rfl⟩
+    · right; left; exact ⟨rfl, by rw [hx]; rfl⟩
+    · right; right; exact ⟨rfl, by rw [hx]; rfl⟩
+
+/-- oneshot: the reason becomes observable exactly as for mpsc (instance of
+`mpsc_close_observable_at_quiescence` for the still unsent sender) -/
+theorem oneshot_close_observable_at_quiescence (c : Cfg) (s : State) (h : ReachableOnce c s) (hq : Quiescent c s)
+    (hlive : s.handles ≠ 0) (hfe : s.fwdErr = false) :
+    (s.closeCalled = true → s.rAlive = true → s.rHold = none → s.connDown = false → s.reason = some .closed) ∧
+    (s.rAlive = false → s.closeCalled = false → s.connDown = false → s.reason = some .dropped) ∧
+    (s.connDown = true → s.reason.isSome) := by
+  have o := oinv_reachable c s h
+  have a := allinv_reachable c s h.reachable
+  -- the sender is unsent: nothing was accepted, so no transmission can have failed
+  have hacc : s.accepted = [] := by
+    have := o.one
+    cases hl : s.accepted with
+    | nil => rfl
+    | cons x xs => simp [hl] at this; omega
+  have hnf : s.failFlag = false := by
+    cases hf : s.failFlag with
+    | false => rfl
+    | true =>
+      have hm := a.f.ff.mp hf
+      have hacc2 := a.q.acc
+      rw [hacc] at hacc2
+      have hh : s.hres = [] := by
+        cases hh : s.hres with
+        | nil => rfl
+        | cons p ps => simp [hh] at hacc2
+      rw [hh] at hm
+      simp at hm
+  have m := mpsc_close_observable_at_quiescence c s h.reachable hq hlive hnf hfe
+  exact ⟨m.1, m.2.1, fun hd => (m.2.2 hd).1⟩
+
+/-! non-vacuity: the value is accepted and transmitted, the receiver takes it, then a clean end;
+and: the receiver is dropped before the value is transmitted — the handle reports `Dropped` -/
+def cfgOnce : Cfg := { cap := 1, rcap := 1, oneshot := true }
+def onceOk : State := run cfgOnce (settle cfgOnce (run cfgOnce (init 1 0 0) [.sendOnce ⟨7, 0, .no⟩]) 40) [.recv, .recv]
+def onceDrop : State := settle cfgOnce (run cfgOnce (init 1 0 0) [.dropRx, .rSeeClosed, .sendOnce ⟨7, 0, .no⟩, .implBack]) 40
+
+example : ReachableOnce cfgOnce (run cfgOnce (init 1 0 0) [.sendOnce ⟨7, 0, .no⟩]) := ⟨rfl, 0, 0, _, rfl⟩
+example : onceOk.accepted.map (·.id) = [7] ∧ onceOk.hres.map (·.2) = [.ok] ∧ onceOk.eos = some true ∧
+    (remOf onceOk.delivered).map (·.id) = [7] ∧ onceOk.handles = 0 := by decide
+example : onceDrop.accepted.map (·.id) = [7] ∧ onceDrop.hres.map (·.2) = [.dropped] ∧ onceDrop.xmit = [] ∧
+    onceDrop.impl = some .fin ∧ onceDrop.reason = some .dropped := by decide
 
 end Remoc.Close
